@@ -77,6 +77,12 @@ func main() {
 	must(os.WriteFile(vosFile, genVos(), 0o644))
 	overlay[filepath.Join(repo, "zzverif", "vos", "vos.go")] = vosFile
 
+	// 2c. generated package zzverif/vatomic: package sync/atomic with a scheduling point before every operation
+	vaFile := filepath.Join(build, "gen", "vatomic", "vatomic.go")
+	must(os.MkdirAll(filepath.Dir(vaFile), 0o755))
+	must(os.WriteFile(vaFile, genVatomic(), 0o644))
+	overlay[filepath.Join(repo, "zzverif", "vatomic", "vatomic.go")] = vaFile
+
 	// 3. harness packages -> virtual packages
 	must(filepath.Walk(harness, func(p string, info os.FileInfo, err error) error {
 		if err != nil {
@@ -336,7 +342,14 @@ func rewrite(src, out string) bool {
 		return true
 	})
 	hasChan := len(chanEdits(fset, f, "x")) > 0
-	if hasGo || hasChan {
+	hasSelect := false
+	ast.Inspect(f, func(n ast.Node) bool {
+		if sel, ok := n.(*ast.SelectStmt); ok && selectHasComm(sel) {
+			hasSelect = true
+		}
+		return true
+	})
+	if hasGo || hasChan || hasSelect {
 		if syncName == "" || syncName == "_" || syncName == "." {
 			syncName = "zzvsync"
 			f.Imports = append(f.Imports, nil) // placeholder, real decl added below
@@ -346,6 +359,9 @@ func rewrite(src, out string) bool {
 		}
 		if hasGo {
 			rewriteGo(f, syncName)
+		}
+		if hasSelect {
+			rewriteSelect(f, syncName)
 		}
 		changed = true
 	}
@@ -622,6 +638,156 @@ func genVos() []byte {
 	src, err := format.Source(out.Bytes())
 	if err != nil {
 		die("generated vos does not format: %v\n%s", err, out.String())
+	}
+	return src
+}
+
+func selectHasComm(sel *ast.SelectStmt) bool {
+	for _, c := range sel.Body.List {
+		if cc, ok := c.(*ast.CommClause); ok && cc.Comm != nil {
+			return true
+		}
+	}
+	return false
+}
+
+// rewriteSelect brackets every select statement that has communication clauses:
+//
+//	select { case <-a: X; default: Y }   ->   { zzSelN := sync.SelectBegin(); select { case <-a: sync.SelectEnd(zzSelN); X; default: sync.SelectEnd(zzSelN); Y } }
+//
+// (a label stays on the select itself, so that `break L` keeps its meaning).
+func rewriteSelect(f *ast.File, syncName string) {
+	ctr := 0
+	done := map[*ast.SelectStmt]bool{}
+	wrap := func(s ast.Stmt) ast.Stmt {
+		var label *ast.LabeledStmt
+		inner := s
+		if l, ok := s.(*ast.LabeledStmt); ok {
+			label, inner = l, l.Stmt
+		}
+		sel, ok := inner.(*ast.SelectStmt)
+		if !ok || done[sel] || !selectHasComm(sel) {
+			return s
+		}
+		done[sel] = true
+		ctr++
+		id := fmt.Sprintf("zzSel%d", ctr)
+		call := func(fn string, args ...ast.Expr) *ast.CallExpr {
+			return &ast.CallExpr{Fun: &ast.SelectorExpr{X: ast.NewIdent(syncName), Sel: ast.NewIdent(fn)}, Args: args}
+		}
+		for _, c := range sel.Body.List {
+			cc := c.(*ast.CommClause)
+			cc.Body = append([]ast.Stmt{&ast.ExprStmt{X: call("SelectEnd", ast.NewIdent(id))}}, cc.Body...)
+		}
+		begin := &ast.AssignStmt{Lhs: []ast.Expr{ast.NewIdent(id)}, Tok: token.DEFINE, Rhs: []ast.Expr{call("SelectBegin")}}
+		var st ast.Stmt = sel
+		if label != nil {
+			st = label
+		}
+		return &ast.BlockStmt{List: []ast.Stmt{begin, st}}
+	}
+	fix := func(list []ast.Stmt) {
+		for i, s := range list {
+			list[i] = wrap(s)
+		}
+	}
+	ast.Inspect(f, func(n ast.Node) bool {
+		switch b := n.(type) {
+		case *ast.BlockStmt:
+			fix(b.List)
+		case *ast.CaseClause:
+			fix(b.Body)
+		case *ast.CommClause:
+			fix(b.Body)
+		}
+		return true
+	})
+}
+
+// genVatomic generates package vatomic from the export data of sync/atomic: every function and every method of every
+// type is wrapped so that it announces a scheduling point (object = the address operated on) before the real operation.
+func genVatomic() []byte {
+	fset := token.NewFileSet()
+	pkg, err := importer.ForCompiler(fset, "source", nil).Import("sync/atomic")
+	if err != nil {
+		die("cannot load package sync/atomic: %v", err)
+	}
+	qual := func(p *types.Package) string {
+		if p.Path() == "sync/atomic" {
+			return "atomic"
+		}
+		return p.Name()
+	}
+	sigParts := func(sig *types.Signature) (params, args, res string) {
+		var ps, as, rs []string
+		for i := 0; i < sig.Params().Len(); i++ {
+			ps = append(ps, fmt.Sprintf("a%d %s", i, types.TypeString(sig.Params().At(i).Type(), qual)))
+			as = append(as, fmt.Sprintf("a%d", i))
+		}
+		for i := 0; i < sig.Results().Len(); i++ {
+			rs = append(rs, types.TypeString(sig.Results().At(i).Type(), qual))
+		}
+		if len(rs) > 0 {
+			res = " (" + strings.Join(rs, ", ") + ")"
+		}
+		return strings.Join(ps, ", "), strings.Join(as, ", "), res
+	}
+	var body bytes.Buffer
+	for _, n := range pkg.Scope().Names() {
+		obj := pkg.Scope().Lookup(n)
+		if !obj.Exported() {
+			continue
+		}
+		switch o := obj.(type) {
+		case *types.Func:
+			sig := o.Type().(*types.Signature)
+			ps, as, res := sigParts(sig)
+			ret := ""
+			if sig.Results().Len() > 0 {
+				ret = "return "
+			}
+			fmt.Fprintf(&body, "func %s(%s)%s {\n\tpt(unsafe.Pointer(a0))\n\t%satomic.%s(%s)\n}\n", n, ps, res, ret, n, as)
+		case *types.TypeName:
+			named, ok := o.Type().(*types.Named)
+			if !ok {
+				continue
+			}
+			tparams, targs := "", ""
+			if named.TypeParams().Len() > 0 {
+				var tp, ta []string
+				for i := 0; i < named.TypeParams().Len(); i++ {
+					p := named.TypeParams().At(i)
+					tp = append(tp, p.Obj().Name()+" "+types.TypeString(p.Constraint(), qual))
+					ta = append(ta, p.Obj().Name())
+				}
+				tparams, targs = "["+strings.Join(tp, ", ")+"]", "["+strings.Join(ta, ", ")+"]"
+			}
+			fmt.Fprintf(&body, "type %s%s struct{ v atomic.%s%s }\n", n, tparams, n, targs)
+			ms := types.NewMethodSet(types.NewPointer(named))
+			for i := 0; i < ms.Len(); i++ {
+				m := ms.At(i).Obj().(*types.Func)
+				if !m.Exported() {
+					continue
+				}
+				sig := m.Type().(*types.Signature)
+				ps, as, res := sigParts(sig)
+				ret := ""
+				if sig.Results().Len() > 0 {
+					ret = "return "
+				}
+				fmt.Fprintf(&body, "func (x *%s%s) %s(%s)%s {\n\tpt(unsafe.Pointer(x))\n\t%sx.v.%s(%s)\n}\n", n, targs, m.Name(), ps, res, ret, m.Name(), as)
+			}
+		}
+	}
+	var out bytes.Buffer
+	out.WriteString("// Code generated by /verif/tools/prep from the export data of sync/atomic. DO NOT EDIT.\n\n")
+	out.WriteString("// Package vatomic is sync/atomic with a scheduling point before every operation.\npackage vatomic\n\nimport (\n\t\"sync/atomic\"\n\t\"unsafe\"\n\n")
+	fmt.Fprintf(&out, "\t%q\n)\n\n", modPath+"/zzverif/vsched")
+	out.WriteString("func pt(p unsafe.Pointer) { vsched.Point(vsched.OpAtomic, uintptr(p), 0) }\n\n")
+	out.Write(body.Bytes())
+	src, err := format.Source(out.Bytes())
+	if err != nil {
+		die("generated vatomic does not format: %v\n%s", err, out.String())
 	}
 	return src
 }
